@@ -1,5 +1,6 @@
 import GoguVerif.Theorems.C20
 import GoguVerif.Theorems.C20M
+import GoguVerif.Theorems.C20Late
 open GoguVerif.Theorems.C20
 -- debounce
 #print axioms debounce_fire_ok
@@ -48,3 +49,8 @@ open GoguVerif.Theorems.C20
 #print axioms sortFires_perm
 #print axioms lmon_accepts_model_sorted
 #print axioms noOfPos_roundtrip
+-- throttle: the callback as in the code; timers that run late (F36)
+#print axioms GoguVerif.Theorems.C20Late.trunCode_eq_trun
+#print axioms GoguVerif.Theorems.C20Late.late_spacing
+#print axioms GoguVerif.Theorems.C20Late.late_spacing_pairs
+#print axioms GoguVerif.Theorems.C20Late.late_old_violates
